@@ -113,6 +113,9 @@ class SemChecker:
             done += 1
             self.nontrivial += 1
             o_new = self.run_on(new, d_new)
+            if o_new[0] == "error":  # interpreter time-out / stack overflow: no information about this input
+                self.no_info = getattr(self, "no_info", 0) + 1
+                continue
             if relation and relation[0] == "narrow" and o_new[0] == "invalid":
                 continue
             if relation and relation[0] == "partial_eval" and o_new[0] == "done":
